@@ -1165,6 +1165,10 @@ mod builtins {
         Ok(String::from_utf8(output).expect("JSON serializer emitted invalid UTF-8"))
     }
 
+    /// The largest indentation width the `tojson` filter accepts.
+    #[cfg(feature = "json")]
+    const MAX_JSON_INDENT: usize = 1024;
+
     /// Dumps a value to JSON.
     ///
     /// This filter is only available if the `json` feature is enabled.  The resulting
@@ -1208,6 +1212,13 @@ mod builtins {
         };
         ok!(args.assert_all_used());
         if let Some(indent) = indent {
+            // every line repeats the indentation once per nesting level
+            if indent > MAX_JSON_INDENT {
+                return Err(Error::new(
+                    ErrorKind::InvalidOperation,
+                    "JSON indentation is too large",
+                ));
+            }
             let indentation = " ".repeat(indent);
             serialize_json(
                 value,
